@@ -1,6 +1,6 @@
 #!/bin/bash
 # quickall.sh [-j N] [tier]: run all registered checks of a tier on /repo (refreshes evidence/), N at a time; one line each.
-cd /verif
+cd "$(dirname "$(readlink -f "$0")")/.." || exit 2
 J=4; [ "$1" = -j ] && { J=$2; shift 2; }
 TIER=${1:-quick}
 one() { out=$(./vcheck "$1" "$2" 2>&1); rc=$?; echo "$1 rc=$rc $(echo "$out" | grep -E "^$1 $2:" | tail -1) $(echo "$out" | grep -m1 -E 'VIOLATION|HARNESS-ERROR|KNOWN-FINDING')"; }
